@@ -38,6 +38,8 @@ impl MUnit {
 struct Model {
     units: Vec<MUnit>,
     best: BTreeMap<usize, BestUnits>,
+    /// the last layer that sets a default system decides; metric when none does (documented default)
+    default_system: System,
 }
 
 fn join(target: &mut Vec<String>, src: Vec<String>, p: Precedence) {
@@ -264,7 +266,8 @@ fn model(layers: &[UnitsFile]) -> Result<Model, String> {
             return Err(format!("fractions: unknown unit {k}"));
         }
     }
-    Ok(Model { units, best })
+    let default_system = layers.iter().rev().find_map(|l| l.default_system).unwrap_or(System::Metric);
+    Ok(Model { units, best, default_system })
 }
 
 // ------------------------------------------------------------------ generator
@@ -555,6 +558,14 @@ fn gen_layers(rng: &mut Rng) -> (Vec<UnitsFile>, Vec<&'static str>) {
                 if g.rng.chance(1, 10) {
                     e.difference = Some(1.5);
                 }
+                if fault == 1 && is_si && si_defined && g.rng.chance(1, 2) {
+                    // editing a generated unit with an EMPTY list is still editing it
+                    e.names = None;
+                    e.ratio = None;
+                    e.difference = None;
+                    e.symbols = Some(vec![]);
+                    g.plant("extend_expanded_unit_with_empty_list");
+                }
                 ext.units.insert(key, e);
             }
             f.extend = Some(ext);
@@ -585,6 +596,11 @@ fn walk(conv: &Converter, m: Option<&Model>) -> Vec<(String, String)> {
                     }
                 }
             }
+        }
+    }
+    if let Some(m) = m {
+        if conv.default_system() != m.default_system {
+            bad.push(("default_system_differs_from_layers".into(), format!("the last layer that sets it says {:?}, the converter reports {:?}", m.default_system, conv.default_system())));
         }
     }
     for q in QS {
